@@ -393,7 +393,12 @@ def main(modname, argv=None):
         try:
             ok, detail = mod.replay(v)
         except Exception as e:  # noqa
-            ok, detail = False, "replay raised: " + "".join(traceback.format_exception(e))[-1500:]
+            if v.get("raised") and type(e).__name__ in str(v["raised"]):
+                # the symbolic path ended in this exception inside a `guarded` block (real code only), and the
+                # concrete replay of the model raises the same kind of exception
+                ok, detail = True, f"real code raised {e!r} on the replayed input"
+            else:
+                ok, detail = False, "replay raised: " + "".join(traceback.format_exception(e))[-1500:]
         v["replay_detail"] = detail
         if not ok:
             not_reproduced.append(v)
